@@ -33,3 +33,20 @@ def engines_in(prog, leaves) -> set:
         elif sub[0] == "xfer":
             out.add(sub[2])
     return out
+
+
+def prune_order_loss(rel, exc) -> bool:
+    """Mechanism of the known finding KF-prune-order-loss: processing raised the documented
+    row-order-loss error although construction had accepted the tree, and the tree contains a chain
+    with a statically empty operand (which the Processor prunes, so that a sort that had been
+    nested under the compound select comes back to the outermost query level)."""
+    import lsst.daf.relation as R
+
+    from . import interp
+
+    if not (isinstance(exc, R.RelationalAlgebraError) and "will not preserve row order" in str(exc)):
+        return False
+    for n in interp.walk(rel):
+        if isinstance(n, R.BinaryOperationRelation) and isinstance(n.operation, R.Chain) and (n.lhs.max_rows == 0 or n.rhs.max_rows == 0):
+            return True
+    return False
